@@ -52,8 +52,23 @@ def _run_case_wrapper(args):
         out = mod.run_case(case)
         out.setdefault('records', [])
     except BaseException as e:   # noqa - includes path-steering exceptions escaping a harness
-        out = {'records': [{'name': 'harness-error', 'status': 'error', 'secs': 0,
-                            'detail': ''.join(traceback.format_exception(type(e), e, e.__traceback__))[-3000:]}]}
+        tb = ''.join(traceback.format_exception(type(e), e, e.__traceback__))[-3000:]
+        blocked = any(m in tb for m in ('compiled-code boundary', 'UnsupportedOperation', 'object arrays are not supported', 'must be real number, not Sym',
+                                        "float() argument must be a string or a real number, not 'Sym", 'loop of ufunc does not support argument 0 of type Sym'))
+        if blocked and hasattr(mod, 'fallback_probes'):
+            # the (changed) code leaves what can be executed symbolically (compiled extension, descriptor-level I/O ...):
+            # the case is inconclusive for the solver; a fixed battery of concrete probes through the public API is run
+            # instead and clearly labelled as such in the evidence
+            try:
+                recs = mod.fallback_probes(case)
+            except BaseException as e2:  # noqa
+                recs = [{'name': 'fallback probes failed: %r' % (e2,), 'status': 'unknown', 'secs': 0}]
+            out = {'records': [{'name': 'symbolic execution blocked (%s): case inconclusive for the solver, concrete fallback probes run' % str(e)[:80],
+                                'status': 'unknown', 'secs': 0}] + recs, 'fallback': True}
+        elif blocked:
+            out = {'records': [{'name': 'symbolic execution blocked by compiled code (%s): inconclusive' % str(e)[:80], 'status': 'unknown', 'secs': 0, 'detail': tb[-600:]}]}
+        else:
+            out = {'records': [{'name': 'harness-error', 'status': 'error', 'secs': 0, 'detail': tb}]}
     out['case'] = case.get('name')
     out['wall_s'] = round(time.time() - t0, 3)
     return out
